@@ -958,7 +958,7 @@ static const yytype_int16 yyrline[] =
     2392,  2402,  2417,  2416,  2429,  2430,  2435,  2468,  2493,  2549,
     2556,  2562,  2568,  2578,  2582,  2590,  2602,  2616,  2623,  2630,
     2655,  2667,  2679,  2691,  2706,  2718,  2733,  2780,  2801,  2836,
-    2871,  2905,  2930,  2947,  2957,  2967,  2977,  2987,  3007,  3027
+    2871,  2905,  2936,  2959,  2969,  2979,  2989,  2999,  3019,  3039
 };
 #endif
 
@@ -5104,7 +5104,13 @@ yyreduce:
         if ((yyvsp[-2].expression).type == EXPRESSION_TYPE_INTEGER &&
             (yyvsp[0].expression).type == EXPRESSION_TYPE_INTEGER)
         {
-          if ((yyvsp[0].expression).value.integer != 0)
+          if ((yyvsp[-2].expression).value.integer == INT64_MIN && (yyvsp[0].expression).value.integer == -1)
+          {
+            // Not representable, the VM yields undefined in this case too.
+            (yyval.expression).value.integer = YR_UNDEFINED;
+            (yyval.expression).type = EXPRESSION_TYPE_INTEGER;
+          }
+          else if ((yyvsp[0].expression).value.integer != 0)
           {
             (yyval.expression).value.integer = OPERATION(/, (yyvsp[-2].expression).value.integer, (yyvsp[0].expression).value.integer);
             (yyval.expression).type = EXPRESSION_TYPE_INTEGER;
@@ -5121,18 +5127,24 @@ yyreduce:
 
         fail_if_error(result);
       }
-#line 5125 "libyara/grammar.c"
+#line 5131 "libyara/grammar.c"
     break;
 
   case 162: /* primary_expression: primary_expression '%' primary_expression  */
-#line 2931 "libyara/grammar.y"
+#line 2937 "libyara/grammar.y"
       {
         check_type((yyvsp[-2].expression), EXPRESSION_TYPE_INTEGER, "%");
         check_type((yyvsp[0].expression), EXPRESSION_TYPE_INTEGER, "%");
 
         fail_if_error(yr_parser_emit(yyscanner, OP_MOD, NULL));
 
-        if ((yyvsp[0].expression).value.integer != 0)
+        if ((yyvsp[-2].expression).value.integer == INT64_MIN && (yyvsp[0].expression).value.integer == -1)
+        {
+          // Not representable, the VM yields undefined in this case too.
+          (yyval.expression).value.integer = YR_UNDEFINED;
+          (yyval.expression).type = EXPRESSION_TYPE_INTEGER;
+        }
+        else if ((yyvsp[0].expression).value.integer != 0)
         {
           (yyval.expression).value.integer = OPERATION(%, (yyvsp[-2].expression).value.integer, (yyvsp[0].expression).value.integer);
           (yyval.expression).type = EXPRESSION_TYPE_INTEGER;
@@ -5142,11 +5154,11 @@ yyreduce:
           fail_if_error(ERROR_DIVISION_BY_ZERO);
         }
       }
-#line 5146 "libyara/grammar.c"
+#line 5158 "libyara/grammar.c"
     break;
 
   case 163: /* primary_expression: primary_expression '^' primary_expression  */
-#line 2948 "libyara/grammar.y"
+#line 2960 "libyara/grammar.y"
       {
         check_type((yyvsp[-2].expression), EXPRESSION_TYPE_INTEGER, "^");
         check_type((yyvsp[0].expression), EXPRESSION_TYPE_INTEGER, "^");
@@ -5156,11 +5168,11 @@ yyreduce:
         (yyval.expression).type = EXPRESSION_TYPE_INTEGER;
         (yyval.expression).value.integer = OPERATION(^, (yyvsp[-2].expression).value.integer, (yyvsp[0].expression).value.integer);
       }
-#line 5160 "libyara/grammar.c"
+#line 5172 "libyara/grammar.c"
     break;
 
   case 164: /* primary_expression: primary_expression '&' primary_expression  */
-#line 2958 "libyara/grammar.y"
+#line 2970 "libyara/grammar.y"
       {
         check_type((yyvsp[-2].expression), EXPRESSION_TYPE_INTEGER, "^");
         check_type((yyvsp[0].expression), EXPRESSION_TYPE_INTEGER, "^");
@@ -5170,11 +5182,11 @@ yyreduce:
         (yyval.expression).type = EXPRESSION_TYPE_INTEGER;
         (yyval.expression).value.integer = OPERATION(&, (yyvsp[-2].expression).value.integer, (yyvsp[0].expression).value.integer);
       }
-#line 5174 "libyara/grammar.c"
+#line 5186 "libyara/grammar.c"
     break;
 
   case 165: /* primary_expression: primary_expression '|' primary_expression  */
-#line 2968 "libyara/grammar.y"
+#line 2980 "libyara/grammar.y"
       {
         check_type((yyvsp[-2].expression), EXPRESSION_TYPE_INTEGER, "|");
         check_type((yyvsp[0].expression), EXPRESSION_TYPE_INTEGER, "|");
@@ -5184,11 +5196,11 @@ yyreduce:
         (yyval.expression).type = EXPRESSION_TYPE_INTEGER;
         (yyval.expression).value.integer = OPERATION(|, (yyvsp[-2].expression).value.integer, (yyvsp[0].expression).value.integer);
       }
-#line 5188 "libyara/grammar.c"
+#line 5200 "libyara/grammar.c"
     break;
 
   case 166: /* primary_expression: '~' primary_expression  */
-#line 2978 "libyara/grammar.y"
+#line 2990 "libyara/grammar.y"
       {
         check_type((yyvsp[0].expression), EXPRESSION_TYPE_INTEGER, "~");
 
@@ -5198,11 +5210,11 @@ yyreduce:
         (yyval.expression).value.integer = ((yyvsp[0].expression).value.integer == YR_UNDEFINED) ?
             YR_UNDEFINED : ~((yyvsp[0].expression).value.integer);
       }
-#line 5202 "libyara/grammar.c"
+#line 5214 "libyara/grammar.c"
     break;
 
   case 167: /* primary_expression: primary_expression "<<" primary_expression  */
-#line 2988 "libyara/grammar.y"
+#line 3000 "libyara/grammar.y"
       {
         int result;
 
@@ -5222,11 +5234,11 @@ yyreduce:
 
         fail_if_error(result);
       }
-#line 5226 "libyara/grammar.c"
+#line 5238 "libyara/grammar.c"
     break;
 
   case 168: /* primary_expression: primary_expression ">>" primary_expression  */
-#line 3008 "libyara/grammar.y"
+#line 3020 "libyara/grammar.y"
       {
         int result;
 
@@ -5246,19 +5258,19 @@ yyreduce:
 
         fail_if_error(result);
       }
-#line 5250 "libyara/grammar.c"
+#line 5262 "libyara/grammar.c"
     break;
 
   case 169: /* primary_expression: regexp  */
-#line 3028 "libyara/grammar.y"
+#line 3040 "libyara/grammar.y"
       {
         (yyval.expression) = (yyvsp[0].expression);
       }
-#line 5258 "libyara/grammar.c"
+#line 5270 "libyara/grammar.c"
     break;
 
 
-#line 5262 "libyara/grammar.c"
+#line 5274 "libyara/grammar.c"
 
       default: break;
     }
@@ -5482,5 +5494,5 @@ yyreturnlab:
   return yyresult;
 }
 
-#line 3033 "libyara/grammar.y"
+#line 3045 "libyara/grammar.y"
 
